@@ -87,11 +87,14 @@ CLAIMS = {
   text="Coq theorems: (a) capacity bookkeeping of the PFC constructor: with the growth check of the current source (bytes + 2*len + 6) every "
        "write index is below the reservation at the time of the write, for every length/lcp sequence and initial reservation; the old "
        "check (2*len) is refuted by a valid 13124-string input (C07_cap_ok_fixed, C07_cap_refuted_strings) and the source's check expression is "
-       "tied to the theorem on every run; (b) every read of the Tier-A models (PFC locate/extract/prefix/table, hashing probe loop, DAC access, "
+       "tied to the theorem on every run; the same for EVERY other Reallocate site and scratch buffer (RPFC/RPHTFC Re-Pair input buffer and "
+       "compressed text incl. the closed form of what encodeSymbol touches, HTFC/HHTFC, HASHHF incl. its trailing bytes, tmp/dec buffers): 28 "
+       "theorems C07_cap2_* for every string list, bucket size, reservation >= 1 and ANY code table with codewords <= 32 bits, the pre-fix checks "
+       "refuted by witnesses that were replayed on the real code, 33 normalised source expressions compared on every run (cap2_checks); (b) every read of the Tier-A models (PFC locate/extract/prefix/table, hashing probe loop, DAC access, "
        "RG rank/select, RPDAC and FM searches, ID iterators incl. the duplicate iterator's sentinel) stays in bounds and every loop terminates "
        "within its fuel for EVERY query (the out-of-bounds outcome is unreachable); (c) scratch buffers sized from maxlength hold every member "
        "plus NUL. Runtime part: all 13 kinds built with the MEMALLOC hook shrunk to 16 bytes, queried, saved, loaded, destroyed under ASan; "
-       "capacity-witness and large-input corpus with the default reservation.",
+       "capacity-witness, boundary (Capacity2) and large-input corpus with the default and the shrunk reservation.",
   note="PARTIAL: use-after-free, double free, uninitialised reads and overruns in code that is not modelled are sanitizer-validated on explored "
        "inputs only. Hook: LIBCSD_VERIF_MEMALLOC (guarded by LIBCSD_VERIF).",
   technique="Coq proof (capacity accounting, checked-read models) + ASan-instrumented correspondence runs as supporting evidence"),
@@ -130,7 +133,10 @@ CLAIMS = {
        "succeeds and search finds every key for every prime table size >= n (dh_insert_succeeds, nearest_prime_spec: result >= n and prime, "
        "probe sequence visits all cells), the three hash-table representations chosen at load answer identically (hash_repr_equiv); FM sampling "
        "step never changes locateSubstr (fm_locateSubstr_spec is step-independent); block cut size / thread count: C09. Tie: same S built under "
-       "parameter vectors from the grid, every answer compared with the specification (hence pairwise).",
+       "parameter vectors from the grid (incl. odd bitmap samplings), every answer compared with the specification (hence pairwise). Regenerated "
+       "obligations (clang typed AST of the current source): every arithmetic node of the probe expressions is 64 bits wide, hence the machine "
+       "value equals the mathematical probe position for tables below 2^32 cells (C12_probe_is_mathematical; a 32-bit product is refuted); "
+       "nearly-full tables of 200 003 keys (10^6 when an obligation breaks) with every key located.",
   note="sqrt(double) in nearest_prime modelled by an integer square root; kinds other than PFC/hashing protocol: correspondence only.",
   technique="Coq proof (corollaries of the per-kind specification theorems) + correspondence over a parameter grid"),
  "C13": dict(
